@@ -60,6 +60,16 @@ struct E {
 	friend bool operator!=(E const& a, E const& b) { return a.v != b.v; }
 	friend bool operator<(E const& a, E const& b) { return a.v < b.v; }
 };
+// element type with a NON-trivial default constructor but TRIVIAL destructor/copy (e.g. struct { int v = 0; }, std::pair<int,int>): value-initialisation is required, lifetime is not tracked
+struct Q {
+	int v;
+	Q() : v(0) {}
+	Q(int x) : v(x) {}  // NOLINT implicit
+	friend bool operator==(Q const& a, Q const& b) { return a.v == b.v; }
+	friend bool operator!=(Q const& a, Q const& b) { return a.v != b.v; }
+	friend bool operator<(Q const& a, Q const& b) { return a.v < b.v; }
+};
+inline int val(Q const& q) { return q.v; }
 inline int val(E const& e) { e.chk("read"); return e.v; }
 inline int val(int e) { return e; }
 inline int val(short e) { return e; }
